@@ -133,6 +133,7 @@ pub fn worker(prop: &str, tier: Tier, master: u64, start: u64, end: u64, deadlin
         }
         let seed = run_seed(master, prop, i);
         let scn = props::generate(prop, seed, tier, i);
+        stats.inc(&format!("reader:{:?}", scn.personality));
         let vs = if want_digests {
             // digest of everything the run produced: its scenario, its violations and its own counters
             let mut st = Stats::default();
